@@ -48,6 +48,7 @@ func mustSchema(sdl string) *gast.Schema {
 // subgraph requests in flight together), chains of @requires
 var curated = map[string][]string{
 	"S-core": {`{me {nick} user(id: "u1") {nick}}`, `{me {reviews {body}} user(id: "u1") {reviews {body}}}`, `{me {favorite {title}} topProducts(first: 1) {title}}`},
+	"S-areq": {`{parcels {dims {size(unit: INCH)} shipping label}}`, `{parcels {weight box dims {size kind} shipping}}`, `{parcel {weight(unit: G) label shipping}}`},
 	"S-nreq": {`{accounts {label name}}`, `{accounts {id label note name}}`, `{accounts {badge label address {city} note}}`, `{account {label name}}`},
 	"S-req":  {`{items {summary}}`, `{items {id summary volume}}`, `{boxes {content {summary}}}`, `{item(id: "i1") {summary shipping}}`},
 }
@@ -73,13 +74,26 @@ func families(run *vk.Run) []*family {
 			}
 			f.layouts = append(f.layouts, fedlab.ByType(s, n, b, fmt.Sprintf("base%d", bi)))
 		}
+		if run.Thorough() {
+			// every layout at Hamming distance 1 from the first base layout
+			b0 := f.layouts[0]
+			for _, nl := range fedlab.NearLayouts(s, b0.N, b0.OwnerVector(), 1)[1:] {
+				used := map[int]bool{}
+				for _, o := range nl.OwnerVector() {
+					used[o] = true
+				}
+				if len(used) == nl.N { // every subgraph keeps something
+					f.layouts = append(f.layouts, nl)
+				}
+			}
+		}
 		f.ops = fedlab.GenOps(fedlab.GenConfig{Schema: f.schema, Widths: vk.Pick(run, []int{1, 2, 1}, []int{1, 2, 2}), ArgMenu: menu}, "query")
 		for _, q := range curated[name] {
 			f.ops = append(f.ops, &fedlab.Op{Kind: "query", Raw: q})
 		}
 		return f
 	}
-	core, abs, req, shapes, nreq := fedlab.SCore(), fedlab.SAbs(), fedlab.SReq(), fedlab.SShapes(), fedlab.SNReq()
+	core, abs, req, shapes, nreq, areq := fedlab.SCore(), fedlab.SAbs(), fedlab.SReq(), fedlab.SShapes(), fedlab.SNReq(), fedlab.SAReq()
 	return []*family{
 		mk("S-core", core, fedlab.SCoreUniverse(core), func(t, f string) [][]fedlab.ArgUse {
 			switch t + "." + f {
@@ -162,6 +176,25 @@ func families(run *vk.Run) []*family {
 			case "Address.zip", "Account.badge":
 				return 1
 			case "Account.label", "Address.city", "Account.note":
+				return 2
+			}
+			return 0
+		}),
+		// @requires field sets with arguments: the required copies are fetched under
+		// aliases next to the client's own selection of the same fields
+		mk("S-areq", areq, fedlab.SAReqUniverse(areq), func(t, f string) [][]fedlab.ArgUse {
+			switch t + "." + f {
+			case "Dims.size":
+				return [][]fedlab.ArgUse{nil, {{Name: "unit", Value: "INCH"}}}
+			case "Parcel.weight":
+				return [][]fedlab.ArgUse{nil, {{Name: "unit", Value: "G"}}}
+			}
+			return nil
+		}, func(r fedlab.FieldRef) int {
+			switch r.String() {
+			case "Parcel.weight":
+				return 1
+			case "Parcel.shipping", "Parcel.box":
 				return 2
 			}
 			return 0
@@ -798,7 +831,7 @@ func check(t *testing.T, run *vk.Run) {
 	run.Assume("provenance from the reference executor and the subgraph simulator: which fault-free request supplied which (object, field)",
 		"dependents of a failed request are over-approximated (any later request carrying representations), which only weakens the 'unexplained null' and 'independent request' clauses",
 		"hang detection: the engine call returns (synchronous harness); no wall-clock oracle")
-	maxF := vk.Pick(run, 1, 2)
+	maxF := vk.Pick(run, 2, 4)
 	run.Bound("max_fault_set", maxF)
 	run.Bound("fault_kinds", faultKinds)
 	var caseNo int64
